@@ -1007,6 +1007,14 @@ def history_cases(ctx, impl, drv, rng, n, n_fresh):
             ctx.count(f"history step via {st['via']}{' (str path)' if st['as_str'] else ''}")
             path = os.path.join(hdir, name)
             write_step(path, f["text"], st["keep_mtime"])
+            # an earlier, completed use of the library's process-wide switches (constant.use_source blocks that end, are nested,
+            # are left through an exception the caller handles) must not change what is parsed afterwards
+            if rng.random() < 0.4:
+                from . import c13_hist
+
+                op = c13_hist.gen_op(rng, sources=c13_hist.all_sources())
+                ctx.count("history step after a constant.use_source block: " + c13_hist.run_op(op))
+                step["prelude"] = op
             status, p = dispatch_parse(path, st["as_str"], st["via"])
             if status == "raises":
                 ctx.violate(f"history:raises:{p.split(':')[0]}",
@@ -1072,6 +1080,10 @@ def replay_history(impl, steps):
     for k, st in enumerate(steps, 1):
         path = os.path.join(hdir, st["name"])
         write_step(path, st["file"], st.get("keep_mtime", False))
+        if st.get("prelude"):
+            from . import c13_hist
+
+            print(f"step {k}: before parsing, constant.use_source({st['prelude']['source']!r}) block: {c13_hist.run_op(st['prelude'])}")
         status, p = dispatch_parse(path, st.get("as_str", False), st.get("via", "parse_file"))
         version = st["file"].split("\n", 1)[0].split()[0]
         if status == "raises":
